@@ -146,10 +146,10 @@ Proof.
 Qed.
 
 (* Document::decrypt = decrypt_raw once the dictionary is read and the revision is one of 2..6 *)
-Lemma doc_decrypt_eq P D a pw : get_encrypted D <> None -> palg_of_doc D = Ok a ->
-  (2 <= pa_revision a <= 6)%Z -> doc_decrypt P D pw = doc_decrypt_raw P D pw.
+Lemma doc_decrypt_eq P xr D a pw : get_encrypted D <> None -> palg_of_doc D = Ok a ->
+  (2 <= pa_revision a <= 6)%Z -> doc_decrypt_x P xr D pw = doc_decrypt_raw_x P xr D pw.
 Proof.
-  intros He Ha HR. unfold doc_decrypt, is_encrypted. destruct (get_encrypted D); [|contradiction]. cbn [negb].
+  intros He Ha HR. unfold doc_decrypt_x, is_encrypted. destruct (get_encrypted D); [|contradiction]. cbn [negb].
   rewrite Ha. unfold sanitize_password.
   destruct (Z.leb_spec 2 (pa_revision a)); [|lia]. destruct (Z.leb_spec (pa_revision a) 6); [|lia]. reflexivity.
 Qed.
@@ -216,10 +216,23 @@ End R4.
    ([norm_objs]: the objects themselves when Length is right, C05_document_objects_exact), after decrypt_raw's
    object-stream pass ([opened_objects]: nothing to do without streams of Type ObjStm), the trailer without Encrypt, the
    encryption dictionary object removed; max_id keeps add_object's increment *)
-Definition plain_doc (P : prims) (st : estate) (d : doc) : doc :=
+Definition plain_doc (P : prims) (xr : N -> option N) (st : estate) (d : doc) : doc :=
   {| d_version := d_version d; d_binary_mark := d_binary_mark d; d_trailer := d_trailer d;
-     d_objects := opened_objects P (norm_objs st (d_objects d)) (d_max_id d + 1, 0) (encode st);
+     d_objects := opened_objects P xr (norm_objs st (d_objects d)) (d_max_id d + 1, 0) (encode st);
      d_max_id := d_max_id d + 1 |}.
+
+(* ... which IS the document (max_id apart) when every stream carries its own Length and the object streams, if any,
+   are expanded (a loaded document) *)
+Lemma plain_doc_exact P xr st d :
+  max_id_ok d -> Forall (fun io => lengths_ok st (snd io)) (d_objects d) -> expanded P xr (d_objects d) ->
+  plain_doc P xr st d =
+  {| d_version := d_version d; d_binary_mark := d_binary_mark d; d_trailer := d_trailer d;
+     d_objects := d_objects d; d_max_id := d_max_id d + 1 |}.
+Proof.
+  intros Hmax HL Hex. unfold plain_doc. rewrite (norm_objs_id st _ HL).
+  rewrite opened_objects_expanded; [reflexivity| |exact Hex].
+  intro Hin. apply Hmax in Hin. cbn [fst] in Hin. lia.
+Qed.
 
 (* the password enters Algorithms 2-7 through its padded form only *)
 Section PadExt.
@@ -231,8 +244,8 @@ Proof. intro H. unfold auth_user_r4, user_value_r2, user_value_r3. rewrite (comp
 Lemma recover_user_r4_pad a x y : pad_pw x = pad_pw y -> recover_user_r4 P a x = recover_user_r4 P a y.
 Proof. intro H. unfold recover_user_r4, owner_hash. rewrite H. reflexivity. Qed.
 
-Lemma doc_decrypt_raw_pad D a x y : palg_of_doc D = Ok a -> rev_2_4 a = true -> pad_pw x = pad_pw y ->
-  doc_decrypt_raw P D x = doc_decrypt_raw P D y.
+Lemma doc_decrypt_raw_pad xr D a x y : palg_of_doc D = Ok a -> rev_2_4 a = true -> pad_pw x = pad_pw y ->
+  doc_decrypt_raw_x P xr D x = doc_decrypt_raw_x P xr D y.
 Proof.
   intros Ha HR H.
   assert (E1 : authenticate_raw_password P D x = authenticate_raw_password P D y).
@@ -245,7 +258,7 @@ Proof.
     destruct (negb (bytes_eqb f N_Standard)); [reflexivity|]. rewrite Ha. cbn [rbind].
     unfold compute_fek. rewrite HR.
     rewrite (recover_user_r4_pad a x y H), (auth_user_r4_pad a D x y H), (compute_fek_r4_pad a D x y H). reflexivity. }
-  unfold doc_decrypt_raw. rewrite E1, E2. reflexivity.
+  unfold doc_decrypt_raw_x. rewrite E1, E2. reflexivity.
 Qed.
 End PadExt.
 
@@ -253,6 +266,7 @@ Section DocR4.
 Variable P : prims.
 Hypothesis md5_len : forall m, length (p_md5 P m) = 16%nat.
 Hypothesis HA : aes_ok P.
+Variable xr : N -> option N.       (* the Compressed entries of Document.reference_table: see Handler.objstm_scan *)
 Let I := iprims_of P.
 Variables (d : doc) (id0 : bytes) (v : eversion) (rnd ivs : list bytes) (st : estate) (d1 : doc).
 Hypothesis Hid : file_id_0 d = Ok id0.
@@ -309,7 +323,7 @@ Lemma rt_r4_open pw :
   | Some k0 => Some k0
   | None => alg7 I (vR v) (vL v) (es_O st) (es_U st) (p_value_i64 (es_perms st)) id0 (vem v) pw
   end = Some (es_key st) ->
-  exists st', doc_decrypt P d1 pw = DOk (plain_doc P st d) st' /\ st_equiv st st'.
+  exists st', doc_decrypt_x P xr d1 pw = DOk (plain_doc P xr st d) st' /\ st_equiv st st'.
 Proof.
   intro Hopen.
   destruct st_facts4 as (M & EO & EU & EK & HLok).
@@ -324,14 +338,14 @@ Proof.
   pose proof (fek_r4_ok P md5_len d1 _ _ _ _ _ _ _ id0 pw (es_key st) M Hfid HU Hopen) as Hfek.
   destruct (decode_encode_r4 P d1 st pw Hge LO HLok HO HU Hfek) as (st' & Hdec & Heq).
   exists st'. split; [|exact Heq].
-  rewrite (doc_decrypt_eq P d1 _ pw Hne Hpa).
-  - exact (doc_rt_gen P st d ivs d1 pw st' HA Hmax Htr Henc Hauth Hdec Heq).
+  rewrite (doc_decrypt_eq P xr d1 _ pw Hne Hpa).
+  - exact (doc_rt_gen P xr st d ivs d1 pw st' HA Hmax Htr Henc Hauth Hdec Heq).
   - rewrite (m_R _ _ _ _ _ _ _ M). pose proof vR_range. lia.
 Qed.
 
 (* the user password *)
 Theorem document_rt_user_r4 :
-  exists st', doc_decrypt P d1 (v_user v) = DOk (plain_doc P st d) st' /\ st_equiv st st'.
+  exists st', doc_decrypt_x P xr d1 (v_user v) = DOk (plain_doc P xr st d) st' /\ st_equiv st st'.
 Proof.
   apply rt_r4_open. destruct st_facts4 as (M & EO & EU & EK & _). rewrite EK, EU, EO.
   apply (open_key_user_r4 P md5_len). exact vR_range.
@@ -358,14 +372,14 @@ Qed.
 Theorem document_rt_owner_r4 :
   v_owner v <> [] ->
   pad_pw (v_owner v) = pad_pw (v_user v) \/ authenticate_raw_user_password P d1 (v_owner v) <> Ok tt ->
-  exists st', doc_decrypt P d1 (v_owner v) = DOk (plain_doc P st d) st' /\ st_equiv st st'.
+  exists st', doc_decrypt_x P xr d1 (v_owner v) = DOk (plain_doc P xr st d) st' /\ st_equiv st st'.
 Proof.
   intros Hne Hcase. destruct read4 as (Hge & Hfid & Hpa & HU & H24).
   destruct st_facts4 as (M & EO & EU & EK & _).
   assert (HR6 : (2 <= pa_revision (palg_of_st st) <= 6)%Z) by (rewrite (m_R _ _ _ _ _ _ _ M); pose proof vR_range; lia).
   destruct Hcase as [Hpad|Hnu].
   - destruct document_rt_user_r4 as (st' & H & Heq). exists st'. split; [|exact Heq]. rewrite <- H.
-    rewrite !(doc_decrypt_eq P d1 _ _ Hge Hpa HR6). exact (doc_decrypt_raw_pad P d1 _ _ _ Hpa H24 Hpad).
+    rewrite !(doc_decrypt_eq P xr d1 _ _ Hge Hpa HR6). exact (doc_decrypt_raw_pad P xr d1 _ _ _ Hpa H24 Hpad).
   - apply rt_r4_open.
     assert (H6 : alg6 I (vR v) (vL v) (es_O st) (es_U st) (p_value_i64 (es_perms st)) id0 (vem v) (v_owner v) = None).
     { destruct (alg6 I (vR v) (vL v) (es_O st) (es_U st) (p_value_i64 (es_perms st)) id0 (vem v) (v_owner v)) eqn:E6; [|reflexivity].
@@ -398,8 +412,8 @@ Proof.
 Qed.
 
 (* the password enters Algorithms 2.A, 11, 12 through its first 127 bytes only *)
-Lemma doc_decrypt_raw_trunc P D a x y : palg_of_doc D = Ok a -> rev_2_4 a = false -> trunc_pw x = trunc_pw y ->
-  doc_decrypt_raw P D x = doc_decrypt_raw P D y.
+Lemma doc_decrypt_raw_trunc P xr D a x y : palg_of_doc D = Ok a -> rev_2_4 a = false -> trunc_pw x = trunc_pw y ->
+  doc_decrypt_raw_x P xr D x = doc_decrypt_raw_x P xr D y.
 Proof.
   intros Ha HR H.
   assert (E1 : authenticate_raw_password P D x = authenticate_raw_password P D y).
@@ -410,7 +424,7 @@ Proof.
     destruct (dict_get e K_Filter) as [[| | | |f| | | | |]|]; try reflexivity.
     destruct (negb (bytes_eqb f N_Standard)); [reflexivity|]. rewrite Ha. cbn [rbind].
     unfold compute_fek, compute_fek_r6. rewrite HR. cbv zeta. rewrite H. reflexivity. }
-  unfold doc_decrypt_raw. rewrite E1, E2. reflexivity.
+  unfold doc_decrypt_raw_x. rewrite E1, E2. reflexivity.
 Qed.
 
 Section R6.
@@ -419,6 +433,7 @@ Hypothesis HA : aes_ok P.
 Hypothesis sha256_len : forall m, length (p_sha256 P m) = 32%nat.
 Hypothesis sha384_len : forall m, length (p_sha384 P m) = 48%nat.
 Hypothesis sha512_len : forall m, length (p_sha512 P m) = 64%nat.
+Variable xr : N -> option N.
 Let I := iprims_of P.
 Variables (d : doc) (v : eversion) (rnd ivs : list bytes) (st : estate) (d1 : doc).
 Hypothesis Hv : version_ok6 v.
@@ -494,7 +509,7 @@ Qed.
 (* whatever password Algorithm 2.A retrieves the key for *)
 Lemma rt_r6_open pw :
   alg2A I (vR6 v) (es_O st) (es_U st) (es_OE st) (es_UE st) (es_perms_enc st) Pz pw = Some (es_key st) ->
-  exists st', doc_decrypt P d1 pw = DOk (plain_doc P st d) st' /\ st_equiv st st'.
+  exists st', doc_decrypt_x P xr d1 pw = DOk (plain_doc P xr st d) st' /\ st_equiv st st'.
 Proof.
   intro Hopen. destruct read6 as (Hge & Hpa & LO & M & R1 & R2).
   destruct st_facts6 as (ER & EV & EK & Hf & HC & HPr & Eem & EU & EUE & EO & EOE & EPe).
@@ -513,14 +528,14 @@ Proof.
   destruct (decode_encode_r6 pw Hfek) as (st' & Hdec & Heq).
   exists st'. split; [|exact Heq].
   assert (Hne : get_encrypted d1 <> None) by (rewrite Hge; discriminate).
-  rewrite (doc_decrypt_eq P d1 _ pw Hne Hpa).
-  - exact (doc_rt_gen P st d ivs d1 pw st' HA Hmax Htr Henc Hauth Hdec Heq).
+  rewrite (doc_decrypt_eq P xr d1 _ pw Hne Hpa).
+  - exact (doc_rt_gen P xr st d ivs d1 pw st' HA Hmax Htr Henc Hauth Hdec Heq).
   - cbn [palg_of_st pa_revision]. rewrite ER. destruct v; cbn [vR6]; lia.
 Qed.
 
 (* the owner password (the empty string when none was given: Algorithm 9 has no "use the user password") *)
 Theorem document_rt_owner_r6 :
-  exists st', doc_decrypt P d1 (v_owner v) = DOk (plain_doc P st d) st' /\ st_equiv st st'.
+  exists st', doc_decrypt_x P xr d1 (v_owner v) = DOk (plain_doc P xr st d) st' /\ st_equiv st st'.
 Proof.
   apply rt_r6_open. destruct st_facts6 as (ER & EV & EK & Hf & HC & HPr & Eem & EU & EUE & EO & EOE & EPe).
   rewrite EK, EPe, EO, EOE, EU, EUE. unfold O9, U8.
@@ -532,7 +547,7 @@ Qed.
    owner password by lopdf as by the standard, and that OE then unwraps to the same key is cryptographic *)
 Theorem document_rt_user_r6 :
   trunc_pw (v_user v) = trunc_pw (v_owner v) \/ authenticate_raw_owner_password P d1 (v_user v) <> Ok tt ->
-  exists st', doc_decrypt P d1 (v_user v) = DOk (plain_doc P st d) st' /\ st_equiv st st'.
+  exists st', doc_decrypt_x P xr d1 (v_user v) = DOk (plain_doc P xr st d) st' /\ st_equiv st st'.
 Proof.
   intro Hcase. destruct read6 as (Hge & Hpa & LO & M & R1 & R2).
   destruct st_facts6 as (ER & EV & EK & Hf & HC & HPr & Eem & EU & EUE & EO & EOE & EPe).
@@ -541,7 +556,7 @@ Proof.
   { cbn [palg_of_st pa_revision]. rewrite ER. destruct v; cbn [vR6]; lia. }
   destruct Hcase as [Htr'|Hno].
   - destruct document_rt_owner_r6 as (st' & H & Heq). exists st'. split; [|exact Heq]. rewrite <- H.
-    rewrite !(doc_decrypt_eq P d1 _ _ Hne Hpa HR6). exact (doc_decrypt_raw_trunc P d1 _ _ _ Hpa R1 Htr').
+    rewrite !(doc_decrypt_eq P xr d1 _ _ Hne Hpa HR6). exact (doc_decrypt_raw_trunc P xr d1 _ _ _ Hpa R1 Htr').
   - apply rt_r6_open.
     assert (H12 : alg12 I (vR6 v) (es_O st) (es_U st) (v_user v) = false).
     { destruct (alg12 I (vR6 v) (es_O st) (es_U st) (v_user v)) eqn:E12; [|reflexivity].
@@ -588,26 +603,26 @@ Theorem document_rt P :
   (forall m, length (p_md5 P m) = 16%nat) -> aes_ok P ->
   (forall m, length (p_sha256 P m) = 32%nat) -> (forall m, length (p_sha384 P m) = 48%nat) ->
   (forall m, length (p_sha512 P m) = 64%nat) ->
-  forall d v rnd ivs st d1 pw,
+  forall xr d v rnd ivs st d1 pw,
   version_in_domain v -> max_id_ok d -> dict_get (d_trailer d) K_Encrypt = None ->
   try_from_version P d v rnd = Ok st -> doc_encrypt P st d ivs = DOk d1 tt ->
   right_password P d1 v pw ->
-  exists st', doc_decrypt P d1 pw = DOk (plain_doc P st d) st' /\ st_equiv st st'.
+  exists st', doc_decrypt_x P xr d1 pw = DOk (plain_doc P xr st d) st' /\ st_equiv st st'.
 Proof.
-  intros md5_len HA s256 s384 s512 d v rnd ivs st d1 pw [Hv|Hv] Hmax Htr Htry Henc Hpw.
+  intros md5_len HA s256 s384 s512 xr d v rnd ivs st d1 pw [Hv|Hv] Hmax Htr Htry Henc Hpw.
   - destruct (try_from_has_id P d v rnd st Hv Htry) as [id0 Hid].
     assert (Hpw' : pw = v_user v \/
               (pw = v_owner v /\ v_owner v <> [] /\
                (pad_pw (v_owner v) = pad_pw (v_user v) \/ authenticate_raw_user_password P d1 (v_owner v) <> Ok tt))).
     { destruct v; cbn [version_ok] in Hv; try contradiction; exact Hpw. }
     destruct Hpw' as [->|(-> & Hne & Hc)].
-    + exact (document_rt_user_r4 P md5_len HA d id0 v rnd ivs st d1 Hid Hv Hmax Htr Htry Henc).
-    + exact (document_rt_owner_r4 P md5_len HA d id0 v rnd ivs st d1 Hid Hv Hmax Htr Htry Henc Hne Hc).
+    + exact (document_rt_user_r4 P md5_len HA xr d id0 v rnd ivs st d1 Hid Hv Hmax Htr Htry Henc).
+    + exact (document_rt_owner_r4 P md5_len HA xr d id0 v rnd ivs st d1 Hid Hv Hmax Htr Htry Henc Hne Hc).
   - assert (Hpw' : pw = v_owner v \/
               (pw = v_user v /\
                (trunc_pw (v_user v) = trunc_pw (v_owner v) \/ authenticate_raw_owner_password P d1 (v_user v) <> Ok tt))).
     { destruct v; cbn [version_ok6] in Hv; try contradiction; exact Hpw. }
     destruct Hpw' as [->|(-> & Hc)].
-    + exact (document_rt_owner_r6 P HA s256 s384 s512 d v rnd ivs st d1 Hv Hmax Htr Htry Henc).
-    + exact (document_rt_user_r6 P HA s256 s384 s512 d v rnd ivs st d1 Hv Hmax Htr Htry Henc Hc).
+    + exact (document_rt_owner_r6 P HA s256 s384 s512 xr d v rnd ivs st d1 Hv Hmax Htr Htry Henc).
+    + exact (document_rt_user_r6 P HA s256 s384 s512 xr d v rnd ivs st d1 Hv Hmax Htr Htry Henc Hc).
 Qed.
